@@ -9,7 +9,7 @@ RULE = ("accepted texts of the schema family with at least one section; override
         "property statement; the outcome compared is the whole result of the load: the configuration AND the composite handler "
         "(schemas with handler attributes on keys, multikeys, sections and multisections of the schema and of the section types, "
         "on about half / on all of the items: number of entries and the (name, value) sequence delivered to recording "
-        "callables); plus specifier syntax at add time. non-trivial = at least one override reaching depth>=1; "
+        "callables); '%import' lines and overrides together (ovimport.py: paths into sections of static and of imported types, real on a fresh loader vs model vs hand-edited text); plus specifier syntax at add time. non-trivial = at least one override reaching depth>=1; "
         "distinct by (schema, text, overrides)")
 
 
@@ -159,6 +159,10 @@ def run(ctx):
         elif b.out[0] == "cfg" and b.out[1] == "conversion" and a.out[1] != "conversion":
             ctx.violate("an unconvertible override value is reported as %s, not as a conversion error" % a.out[1],
                         dict(a.replay(), edited_lines=b.lines), signature="C14:bad-value-kind:" + a.out[1])
+    # '%import' lines and overrides TOGETHER (C14_text_override_eq_edit_imports): real vs model, real vs the hand-edited text; a path
+    # into a section of a type the text itself imports is refused (known finding C14-override-into-imported-type)
+    from .. import ovimport
+    ovimport.run_stream(ctx, "C14")
     # specifier syntax at add time
     import ZConfig
     from ZConfig.cmdline import ExtendedConfigLoader
